@@ -376,7 +376,7 @@ proof fn lemma_input_sum_mono(tx: &Transaction, ub: &UnstableBlocks, i: int, j: 
 }
 
 // the insertion-time computation (outpoints_cache.rs:101-109): the same function of the transaction and its input sum
-//@slice file=canister/src/unstable_blocks/outpoints_cache.rs item="fn insert_outpoints" from="if !tx.is_coinbase() {" nth=2 to_block=1 props=C15
+//@slice file=canister/src/unstable_blocks/outpoints_cache.rs item="fn insert_outpoints" from="if !tx.is_coinbase() {" nth=2 to_block=1 props=C15 optional=1
 //@ rewrite R9 "tx\.output\(\)\.iter\(\)\.map\(\|o\| o\.value\.to_sat\(\)\)\.sum\(\)" => "vp_output_sum(tx)"
 //@ head
 //@| // R8 slice: the fee-rate statement at the end of insert_outpoints' per-transaction loop
